@@ -1343,6 +1343,8 @@ class PyExec:
         raise CheckerError("dot of shapes %s %s" % (A.shape, B.shape))
 
     def getitem(self, st, o, idx):
+        if isinstance(o, ModuleRef) and o.name in self.hooks:
+            return self.hooks[o.name](self, st, [idx], {})       # index-trick objects such as numpy.c_[...]
         if isinstance(o, SymArr):
             if not isinstance(idx, tuple):
                 idx = (idx,)
